@@ -26,7 +26,9 @@ META = {
             'if both endpoints complete then their transcripts, keys, hellos and negotiated views are equal (TLS<=1.2 full, '
             'abbreviated; TLS 1.3 full, HelloRetryRequest, PSK) and equal the server\'s answer to the honest offer; the '
             'downgrade sentinel is written (full and resumed ServerHello) and checked, FALLBACK_SCSV '
-            'is enforced, the second ClientHello is bound to the first outside the HRR-permitted extensions. Tied to /repo by a '
+            'is enforced by the server and emitted by the client for every hello construction (with or without an offered '
+            'session), so a fallback retry is refused end to end; the second ClientHello is bound to the first outside the '
+            'HRR-permitted extensions. Tied to /repo by a '
             'regenerated site table and by a byte-level man-in-the-middle between live endpoints on which the property '
             'itself and the model\'s decision functions are checked.',
     'note': 'Idealisation (theorems with suffix _ideal): transcript hash and Finished/binder PRF injective, Finished values under '
@@ -157,6 +159,20 @@ def judge(sc, base, r, ops):
                 out.append(('sentinel-not-checked', 'client (max %r) went on with the key exchange after a ServerHello for %r '
                             'carrying a downgrade sentinel' % (cmax, f['v'])))
         break
+    # SCSV emission (RFC 7507 sect. 4): a client configured to signal a fallback puts TLS_FALLBACK_SCSV in every hello
+    if sc['cs'].get('sendFallbackSCSV'):
+        for mh in r['wire']['c2s']['sent']:
+            f = ch_facts(mh)
+            if f is not None and not f['scsv']:
+                out.append(('scsv-not-sent:%s' % ('session-offered' if sc.get('resume') else 'no-session'),
+                            'client with sendFallbackSCSV=True sent a ClientHello without TLS_FALLBACK_SCSV'))
+                break
+    # fallback retry: both ends really support more than the retry offers -> they must never both complete
+    if 'true_cmax' in sc and r.get('both'):
+        common = min(tuple(sc['true_cmax']), smax)
+        if tuple(r['vc']['version']) < common:
+            out.append(('fallback-completed-below-common-max',
+                        'fallback retry completed at %r although both endpoints support %r' % (r['vc']['version'], common)))
     # SCSV: the first ClientHello DELIVERED to the server
     for mh in r['wire']['c2s']['dlv'][:1]:
         f = ch_facts(mh)
@@ -378,6 +394,10 @@ Definition chk_client_dg (c : Z * Z * chello * shello * Z * Z * bool) : bool :=
 (* K3: sentinel written by every TLS <= 1.2 ServerHello, full or resumed *)
 Definition chk_written (c : Z * Z * Z) : bool :=
   let '(smax, v, tail) := c in sentinel_for smax v tail =? tail.
+(* K6: cipher-suite list the client puts on the wire *)
+Definition chk_suites (c : list Z * bool) : bool :=
+  let '(sent, scsv) := c in
+  zl_eqb sent (client_hello_suites (filter (fun x => negb ((x =? RENEGO_SCSV) || (x =? FALLBACK_SCSV))) sent) scsv).
 (* K4: second ClientHello.  sobs: 1 = the server refused with the "does not match"/key-share family *)
 Definition chk_hrr (c : option (list Z) * Z * chello * chello * Z) : bool :=
   let '(ck, g, c1, c2, sobs) := c in
@@ -391,7 +411,7 @@ def model_cases(name, sc, r):
     """Gallina case literals of the kinds K1..K4 from one kept live run"""
     import c04_proxy as P
     from tlslite.constants import ExtensionType as E
-    out = {'front': [], 'client': [], 'written': [], 'hrr': []}
+    out = {'front': [], 'client': [], 'written': [], 'hrr': [], 'suites': []}
     cmin, cmax = vz(sc['cs']['minv']), vz(sc['cs']['maxv'])
     smin, smax = vz(sc['ss']['minv']), vz(sc['ss']['maxv'])
     w = r['wire']
@@ -399,6 +419,11 @@ def model_cases(name, sc, r):
     chs_sent = [ch_facts(m) for m in w['c2s']['sent']]
     shs_sent = [sh_facts(m) for m in w['s2c']['sent']]
     shs_dlv = [sh_facts(m) for m in w['s2c']['dlv']]
+    # K6
+    for f in chs_sent:
+        if f is not None:
+            out['suites'].append('(%s, %s)' % (listlit(f['obj'].cipher_suites, zlit),
+                                               boollit(bool(sc['cs'].get('sendFallbackSCSV')))))
     # K1
     if chs_dlv and chs_dlv[0] is not None and w['c2s']['dlv'][0][:2] == '01':
         if shs_sent and shs_sent[0] is not None:
@@ -480,7 +505,10 @@ def run(ctx):
             if expect_fail:
                 b.setdefault('diff', [])
                 b.setdefault('vc', {'version': None, 'suite': None})
-                if b['s'] != ('LocalAlert', 86):
+                sent = [ch_facts(m) for m in b['wire']['c2s']['sent'][:1]]
+                if sent and sent[0] is not None and not sent[0]['scsv']:
+                    pass        # the client did not send the signal: reported by judge() as scsv-not-sent
+                elif b['s'] != ('LocalAlert', 86):
                     if ctx.violation('scsv-ignored', 'server did not answer inappropriate_fallback to an honest fallback hello '
                                      'with SCSV: %r' % (b['s'],), {'scenario': n, 'ops': [], 's': b['s']}):
                         found = True
@@ -491,7 +519,7 @@ def run(ctx):
                                  {'scenario': n, 'ops': [], 'vc': b.get('vc'), 'vs': b.get('vs')}):
                     found = True
             # the untampered run is judged first, so that a defect that needs no attacker is reported as such
-            if 'wire' in b and b.get('both'):
+            if 'wire' in b:
                 b0 = {'baseline_diff': b['diff'], 'negotiated': (b['vc']['version'], b['vc']['suite'])}
                 for k, what in judge(_scenarios()[n], b0, b, []):
                     if ctx.violation(k, '%s [%s untampered]' % (what, n),
@@ -507,8 +535,8 @@ def run(ctx):
     # ---- direct oracle
     n_both = 0
     seen = set()
-    lits = {'front': [], 'client': [], 'written': [], 'hrr': []}
-    meta = {'front': [], 'client': [], 'written': [], 'hrr': []}
+    lits = {'front': [], 'client': [], 'written': [], 'hrr': [], 'suites': []}
+    meta = {'front': [], 'client': [], 'written': [], 'hrr': [], 'suites': []}
     for r in results:
         if 'harness_error' in r:
             tie_broken = tie_broken or ('harness error in %s %r: %s' % (r['name'], r['ops'], r['harness_error'][-300:]))
@@ -551,7 +579,8 @@ def run(ctx):
         plan = [('front', 'Z * Z * chello * Z * Z', ['chk_front', 'chk_front_alert']),
                 ('client', 'Z * Z * chello * shello * Z * Z * bool', ['chk_client', 'chk_client_dg']),
                 ('written', 'Z * Z * Z', ['chk_written']),
-                ('hrr', 'option (list Z) * Z * chello * chello * Z', ['chk_hrr'])]
+                ('hrr', 'option (list Z) * Z * chello * chello * Z', ['chk_hrr']),
+                ('suites', 'list Z * bool', ['chk_suites'])]
         for k, ty, fns in plan:
             if not lits[k]:
                 continue
